@@ -111,6 +111,24 @@ def directed_graph_ws(root):
     return ws
 
 
+def directed_graph_ws2(root):
+    """one conftest again: disjoint two-member cycles whose sorted member names concatenate to the same string
+    ({a, ab} / {aa, b}; {db, db_session} / {dbdb_, session}) - every one of them must be reported - and several fixtures of
+    one broader scope sharing one narrower dependency (each of them is a mismatch of its own)"""
+    ws = gen.WS(root)
+    placed = [["a", "conftest.py", ["ab"], "function"], ["ab", "conftest.py", ["a"], "function"],
+              ["aa", "conftest.py", ["b"], "function"], ["b", "conftest.py", ["aa"], "function"],
+              ["db", "conftest.py", ["db_session"], "function"], ["db_session", "conftest.py", ["db"], "function"],
+              ["dbdb_", "conftest.py", ["session"], "function"], ["session", "conftest.py", ["dbdb_"], "function"],
+              ["narrow", "conftest.py", [], "function"], ["s1", "conftest.py", ["narrow"], "session"],
+              ["s2", "conftest.py", ["narrow"], "session"], ["s3", "conftest.py", ["narrow"], "session"],
+              ["m1", "conftest.py", ["narrow"], "module"], ["m2", "conftest.py", ["narrow"], "module"]]
+    ws.files = {"conftest.py": HDR + "".join(fx(n_, d_, s_) for n_, _, d_, s_ in placed),
+                "test_mod.py": "def test_t(a, aa, db, dbdb_, s1, s2, s3, m1, m2):\n    pass\n"}
+    ws.spec = {"unique": True, "placed": [tuple(p) for p in placed], "depth": 0, "names": [p[0] for p in placed], "directed": 2}
+    return ws
+
+
 def tarjan(nodes, succ):
     index, low, on, st, out, idx = {}, {}, set(), [], [], [0]
 
@@ -269,7 +287,7 @@ def run(ctx):
         concurrent_cycles(ctx, 300 if quick else 30000)
         for i in range(n):
             root = ctx.scratch(f"g{i}")
-            ws = directed_graph_ws(root) if i == 0 else gen_graph_ws(root, ctx.rng, unique=(i % 2 == 0))
+            ws = directed_graph_ws(root) if i == 0 else directed_graph_ws2(root) if i == 1 else gen_graph_ws(root, ctx.rng, unique=(i % 2 == 0))
             write_tree(root, ws.files)
             model = ws.model()
             files = sorted(ws.py_files())
@@ -314,6 +332,20 @@ def run(ctx):
                 write_tree(droot, dws.files)
                 server_diagnostics(ctx, dws, dws.model())
                 ctx.nontrivial(("directed_multi_mismatch",))
+                shutil.rmtree(droot, ignore_errors=True)
+                # directed: the narrower dependency reaches the document only through an import of its conftest.py, and that
+                # conftest.py was opened and closed (its text is no longer cached) before the document is analysed
+                droot = ctx.scratch("directed_closed")
+                dws = gen.WS(droot)
+                dws.files = {"conftest.py": "from .dhelpers import dep_d\nfrom .dstar import *\n",
+                             "dhelpers.py": HDR + fx("dep_d", [], "function"),
+                             "dstar.py": HDR + fx("dep_s", [], "class"),
+                             "test_mod.py": HDR + fx("wide", ["dep_d"], "session") + fx("wide2", ["dep_s"], "module")
+                             + "def test_t(wide, wide2):\n    pass\n"}
+                dws.spec = {"directed": "importing conftest closed before the document is analysed", "depth": 0, "names": []}
+                write_tree(droot, dws.files)
+                server_diagnostics(ctx, dws, dws.model(), open_close_first=("conftest.py",))
+                ctx.nontrivial(("directed_closed_importing_conftest",))
                 shutil.rmtree(droot, ignore_errors=True)
             ctx.count("graphs")
             shutil.rmtree(root, ignore_errors=True)
@@ -366,12 +398,19 @@ def concurrent_cycles(ctx, count):
         vh.close()
 
 
-def server_diagnostics(ctx, ws, model):
-    """published circular-dependency / scope-mismatch diagnostics on the real server"""
+def server_diagnostics(ctx, ws, model, open_close_first=()):
+    """published circular-dependency / scope-mismatch diagnostics on the real server; `open_close_first`: documents that are
+    opened and closed again (unchanged) before anything is judged - closing a document must be invisible"""
     srv = LSP(srv_bin(), ws.root, locklog=os.path.join(ctx.scratch_root, "lock_srv.log"))
     try:
         srv.initialize()
         nodes, succ, info = def_graph(model)
+        for rel in open_close_first:
+            before = srv.seq
+            srv.did_open(ws.abs(rel), ws.files[rel])
+            srv.wait_diagnostics(ws.abs(rel), before, timeout=20)
+            srv.did_close(ws.abs(rel))
+            srv.pump(0.05)
         for rel in ws.py_files():
             f = ws.abs(rel)
             before = srv.seq
